@@ -125,7 +125,33 @@ def run(P, R):
         ks = [ev.const(f.node.comparators[0]) for f in fm.at(c) if isinstance(f.node, ast.Compare)
               and ast.unparse(f.node.left) == 'strategy' and f[1]]
         return not ks or m in ks
-    ok = bool(ap) and all([ast.unparse(a) for a in c.args] == [cc.node.args.args[2].arg] for c in ap) and \
+    cparam = cc.node.args.args[2].arg
+
+    def given_conflicts(a):
+        """the parameter itself, or its restriction to the processes that are (still) conflicting."""
+        if ast.unparse(a) == cparam:
+            return True
+        if not isinstance(a, ast.Name):
+            return False
+        defs = [x for x in own_nodes(cc.node) if isinstance(x, ast.Assign) and ast.unparse(x.targets[0]) == a.id]
+        apps = [x for x in own_nodes(cc.node) if isinstance(x, ast.Call) and call_text(x) == a.id + '.append']
+        if len(defs) != 1:
+            return False
+        v = defs[0].value
+        if isinstance(v, ast.ListComp):
+            view = comp_view(cc, v)
+            return view['iters'] == [cparam] and view['elt'] == 'each(%s)' % cparam and \
+                view['conds'] <= {('each(%s).conflicting()' % cparam, True)}
+        if not (isinstance(v, ast.List) and not v.elts and apps):
+            return False
+        for x in apps:
+            loops = [l for l in own_nodes(cc.node) if isinstance(l, ast.For) and ast.unparse(l.iter) == cparam
+                     and isinstance(l.target, ast.Name) and any(y is x for y in ast.walk(l))]
+            if len(loops) != 1 or ast.unparse(x.args[0]) != loops[0].target.id or \
+                    not {(f[0], f[1]) for f in fm.at(x)} <= {('%s.conflicting()' % loops[0].target.id, True)}:
+                return False
+        return True
+    ok = bool(ap) and all(len(c.args) == 1 and given_conflicts(c.args[0]) for c in ap) and \
         all(any(covers(c, m) for c in ap) for m in members)
     R.check(r3, ok, 'the chosen strategy is applied to the given conflicts', 'dispatch|apply', cc.loc(),
             'conciliate_conflicts does not call instance.conciliate(conflicts)')
